@@ -281,6 +281,12 @@ def run(ctx, case):
                 c["limits"] = {k: v for k, v in c["limits"].items() if k in applicable(c["kind"])} or None
     ops, used = plan_history(rng, T, case["detour_rate"])
     reload_at = rng.randrange(1, max(2, len(ops))) if will_reload else -1
+    audit_at = rng.randrange(0, max(1, len(ops) - 1)) if rng.random() < 0.5 else -1
+    late_src = [k_ for k_, o_ in enumerate(ops[1:]) if isinstance(o_, dict) and o_["op"] == "add_source"]
+    pre_analyse_at = -1
+    if late_src and rng.random() < 0.5:
+        # a source added to an ALREADY ANALYSED system, judged before any further call
+        audit_at = pre_analyse_at = rng.choice(late_src)
     _, start, g0, r0 = ops[0]
     E = ns.System(T.get("name", "sys"), hist.make(ns, start), group=g0, rail=r0)
     reloaded = False
@@ -290,6 +296,10 @@ def run(ctx, case):
                 H.call(E.save, os.path.join(dd, "i.json")) if op["what"] == "save" else H.call(getattr(E, op["what"]))
             ctx.ev("history.interleaved_analysis")
             continue
+        if k == pre_analyse_at:
+            with H.quiet():
+                H.call(E.solve)
+                H.call(E.params)
         st, e = hist.apply(E, op, ns)
         if st == "ok" and rng.random() < 0.3:
             # analyses interleaved with the edits: whatever they cache must be refreshed by later analyses
@@ -311,6 +321,18 @@ def run(ctx, case):
             if s2_ == "ok":
                 E, reloaded = E2, True
                 used.append("continued_on_reloaded_copy")
+        if st == "ok" and k == audit_at:
+            # the same judgement at an INTERMEDIATE state of the history (right after this call, before any further
+            # call can refresh whatever the code keeps): the structure to compare with is read from the live registries
+            try:
+                T_mid = hist.spec_from_live(E)
+            except Exception as e_:  # noqa: BLE001
+                T_mid = None
+                ctx.check("history.reports_succeed", False, {"where": "intermediate", "exception": "%s: %s" % (type(e_).__name__, e_),
+                                                             "history": ops_tail(ops[: k + 2], 40)[-8:]})
+            if T_mid is not None and H.try_build(T_mid)[0] == "ok":
+                _audit(ctx, ns, rng, T_mid, E, {"where": "intermediate state after call %d" % (k + 1), "last_call": hist.op_sig(op)}, ops[: k + 2], where="intermediate")
+                ctx.ev("history.intermediate_audit")
         if st != "ok":
             ctx.count("history", "abandoned: %s rejected (%s)" % (hist.op_sig(op), type(e).__name__))
             ctx.inconc("detour op rejected: %s -> %s" % (json.dumps(op)[:200], H.exc_sig(e)))
@@ -318,10 +340,23 @@ def run(ctx, case):
             return
     for u in used:
         ctx.ev("detour." + u)
+    det = {"detours": used, "ops": len(ops)}
+    _audit(ctx, ns, rng, T, E, det, ops)
+    shown(ctx, T, E, det)
+    _rows.observe(ctx, T)
+    for u in set(used):
+        ctx.see("detours", u)
+    if len(used) >= 3 and len(set(used)) >= 2 and len(T["comps"]) >= 6:
+        ctx.nontrivial([S.canonical(T), case["hseed"]])
+    ctx.sample({"target": _rows.short(T), "history": ops_tail(ops, 10), "detours": used})
+
+
+def _audit(ctx, ns, rng, T, E, det, ops, where="final"):
+    """Every report of the edited system E succeeds, lists exactly the live components of T and equals the report of
+    a system built from scratch as T."""
     st, F = H.try_build(T)
     if st != "ok":
-        raise RuntimeError("target spec rejected: %s" % H.exc_sig(F))
-    det = {"detours": used, "ops": len(ops)}
+        raise RuntimeError("target spec rejected (%s): %s" % (where, H.exc_sig(F)))
     names = sorted(c["name"] for c in T["comps"])
     # structure read from the live graph
     sd = c12.structure_diff(T, E)
@@ -355,7 +390,8 @@ def run(ctx, case):
         if resE["tree"][0] == "ok":
             txt = resE["tree"][1]
             missing = [n for n in names if n not in txt]
-            ghosts = [t for t in ("~x", "~t_", "~i", "~s", "~r_", "~q") if t in txt]
+            # (temporary names are legitimately alive in an intermediate state)
+            ghosts = [t for t in ("~x", "~t_", "~i", "~s", "~r_", "~q") if t in txt] if where == "final" else []
             ctx.check("history.live_set", not missing and not ghosts, dict(det, tree_missing=missing, ghosts=ghosts))
         # values equal to the freshly built system
         for name, keys in (("solve", ("Component", "Phase")), ("rail_rep", ("Rail", "Phase", "Component")),
@@ -365,19 +401,14 @@ def run(ctx, case):
                 diffs = c12.keyed_diff(r1, r2, keys)
                 ctx.check("history." + ("params" if name == "limits" else name), not diffs,
                           dict(det, report=name, differences_edited_vs_fresh=diffs[:8], history=ops_tail(ops)))
-        if resE["save"][0] == "ok" and resF["save"][0] == "ok":
+        # (the document is compared for the final state only: the intermediate reference is rebuilt from the live
+        # registries, which do not tell an empty phase configuration written as [] from one written as {})
+        if where == "final" and resE["save"][0] == "ok" and resF["save"][0] == "ok":
             E.save(os.path.join(d, "e.json"))
             F.save(os.path.join(d, "f.json"))
             de, df_ = json.load(open(os.path.join(d, "e.json"))), json.load(open(os.path.join(d, "f.json")))
             diffs = c12.json_diff(df_, de)
             ctx.check("history.save", not diffs, dict(det, differences_fresh_vs_edited=diffs[:8], history=ops_tail(ops)))
-    shown(ctx, T, E, det)
-    _rows.observe(ctx, T)
-    for u in set(used):
-        ctx.see("detours", u)
-    if len(used) >= 3 and len(set(used)) >= 2 and len(T["comps"]) >= 6:
-        ctx.nontrivial([S.canonical(T), case["hseed"]])
-    ctx.sample({"target": _rows.short(T), "history": ops_tail(ops, 10), "detours": used})
 
 
 def ops_tail(ops, n=14):
